@@ -193,9 +193,11 @@ def _inspect_process_ir_param(param, sig):
         return name, _param
     sig_param: inspect.Parameter = sig.parameters[name]
     if sig_param.annotation is not _empty:
-        _param["typ"] = lstrip_typings(
-            "{annotation!s}".format(annotation=sig_param.annotation)
-        )
+        _param["typ"] = (
+            sig_param.annotation
+            if isinstance(sig_param.annotation, str)
+            else inspect.formatannotation(sig_param.annotation)
+        ).replace("typing_extensions.", "")
     if sig_param.default is not _empty:
         _param["default"] = sig_param.default
         if _param.get("typ", _empty) is _empty:
